@@ -11,7 +11,8 @@ NL = 6
 DT = 0.5
 MEAS = ["arias", "cav", "isv", "ia", "iv", "uke"]
 EXPO = {"arias": 2, "cav": 1, "isv": 2, "ia": 1, "iv": 1, "uke": 2}
-CAVDP_DTS = [1.0, 0.5, 0.25, 0.2, 0.1, 0.05, 0.04, 0.025, 0.02, 0.01, 0.005, 0.004, 0.002]
+CAVDP_DTS = [1.0, 0.5, 0.25, 0.2, 0.1, 0.05, 0.04, 0.025, 0.02, 0.01, 0.005, 0.004, 0.002,
+             1.0 / 93, 1.0 / 99, 1.0 / 210, 1.0 / 490, 1.0 / 105]      # rates whose 1/dt falls just below the whole number in binary64
 MC_CFG = """SPECIFICATION Spec
 CONSTANT MaxLen = %d
 INVARIANT Monotone
@@ -87,7 +88,10 @@ def cavdp(a, dt):
         s.reset_values(np.array(a))
     else:
         s = eqsig.AccSignal(a, dt)
-    return im.calc_cav_dp(s), int(1 / dt), int(s.time[-1])
+    # samples per second and whole seconds covered as the PROPERTY has them (an integer number of samples per second; windows
+    # of one second), not as any implementation happens to round them
+    pps = int(round(1.0 / dt))
+    return im.calc_cav_dp(s), pps, (len(a) - 1) // pps
 
 
 def table_row(code, digits):
@@ -190,7 +194,7 @@ def build_traces(path, tier, seed):
              "y": enc_seq([s1[m][-1] for m in acc]), "f": enc_seq([1.0, 1.0, 1.0])}, {"kind": "rel", "law": "ZeroPadInvariant", "k": k, "n": n})
     for i in range(ndp):
         dt = CAVDP_DTS[i % len(CAVDP_DTS)]
-        pps = int(1 / dt)
+        pps = int(round(1 / dt))
         secs = float(rng.uniform(2.0, 7.0))
         n = int(secs / dt) + 2 + int(rng.integers(0, pps + 1))
         n = min(n, 4000)
@@ -254,7 +258,7 @@ def run(tier, seed):
             rep.fail(c, "trace:" + meta[t]["kind"], meta[t])
     for t in (1, 2, len(meta)):
         rep.sample(meta[t])
-    rep.assumptions = ["standardised CAV: records of at least 2 s and dt with 1/dt integral in binary64 (%s)" % CAVDP_DTS,
+    rep.assumptions = ["standardised CAV: records of at least 2 s and dt = 1/k s for whole k (%s)" % [round(1.0 / d, 6) for d in CAVDP_DTS],
                        "series values compared with the machine at 1e-10 relative; monotone up to 1e-15 of the final value",
                        "zero padding law for the acceleration-based quadrature measures (Arias, CAV, integral of |a|) only"]
     return rep.finish(checker_cmd="tlc MC_Intensity / Trace_Intensity (harness/drivers/c09.py)",
